@@ -122,6 +122,10 @@ Definition occ_max (occ : list (Z * Z)) : Z :=
   | p :: r => fold_left Z.max (map (fun p => fst p + snd p - 1) r) (fst p + snd p - 1)
   end.
 
+(* the first track after the occupied ones: `max(occupied_tracks) + 1 if occupied_tracks else 0` *)
+Definition occ_next (occ : list (Z * Z)) : Z :=
+  match filter (fun p => 0 <? snd p) occ with [] => 0 | _ => occ_max occ + 1 end.
+
 Definition max_end (l : list (Z * Z)) : Z := fold_left Z.max (map (fun p => fst p + snd p) l) 0.
 
 Section Placement.
@@ -175,7 +179,7 @@ Section Placement.
   Definition second_placement (fp : Z * Z) (ss se : gline) (ps : list area) : option (Z * Z) :=
     let occ := occupied fp ps in
     if dense then dense_track (dense_fuel occ) ss se occ 0
-    else let track := occ_max occ + 1 in
+    else let track := occ_next occ in
          match ss with
          | GAuto => Some (pl_line_start (track + 1) se)
          | _ => sparse_end (sparse_fuel ss) ss track (track + 1)
@@ -482,6 +486,20 @@ Fixpoint spec_no_overlap (l : list (item * area)) : bool :=
       spec_no_overlap r
   end.
 
+(* clause D (css-grid 8.5 step 2, both packing modes): an item locked to the auto-flow axis only (its row in row flow)
+   whose rows (resp. columns) hold no other item starts on the first line of the other axis *)
+Definition spec_locked_alone (colflow : bool) (ias : list (item * area)) : bool :=
+  forallb (fun p =>
+    let it := fst p in let a := snd p in
+    match get_placement (fst_s colflow it) (fst_e colflow it), get_placement (snd_s colflow it) (snd_e colflow it) with
+    | Some _, None =>
+        let fr := first_of colflow a in
+        negb (Nat.eqb (length (filter (fun q => let gr := first_of colflow (snd q) in
+                                                intersect (fst fr) (snd fr) (fst gr) (snd gr)) ias)) 1)
+        || (fst (second_of colflow a) =? 0)
+    | _, _ => true
+    end) ias.
+
 (* clause C: the rectangle of an item is the rectangle of its area in the implicit grid that css-grid 7.5
    defines: the explicit tracks where the template gives them, grid-auto-* tracks elsewhere, as many
    implicit tracks as the items need on both sides; tracks start at the content edge (justify-content normal) *)
@@ -533,7 +551,8 @@ Inductive impl_outcome :=
 Definition bit (n : nat) (b : bool) : nat := if b then 0%nat else n.
 
 (* mask: 1 model <> implementation; 2 some clause of the specification fails on the implementation's output
-   (4 clause A lines, 8 clause B overlap, 16 clause C rectangles, 32 the implementation crashed or hung) *)
+   (4 clause A lines, 8 clause B overlap, 16 clause C rectangles, 32 the implementation crashed or hung,
+    64 clause D an item locked to an otherwise empty row / column does not start on the first line) *)
 Definition place_judge (ci : pcase * impl_outcome) : nat :=
   let '(c, o) := ci in
   let tcols := Z.of_nat (length (pc_cols c)) in
@@ -572,7 +591,8 @@ Definition place_judge (ci : pcase * impl_outcome) : nat :=
                     all2 (fun oa r => match oa, r with
                                       | Some a, Some r => rect_close r (css_rect c gx1 gy1 a)
                                       | _, _ => false end) ip ir in
-        (bit 4 a_ok + bit 8 b_ok + bit 16 c_ok)%nat
+        let d_ok := spec_locked_alone (pc_colflow c) ias in
+        (bit 4 a_ok + bit 8 b_ok + bit 16 c_ok + bit 64 d_ok)%nat
     | _ => 32%nat
     end in
   (bit 1 corr + (if Nat.eqb clauses 0 then 0 else 2) + clauses)%nat.
